@@ -46,6 +46,7 @@ void h_parse_fp(void)
 		CHECK("C18", rc == CFG_PARSE_ERROR && g_begin_calls == 0 && g_pi_calls == 0, "no memory for the default file name: parse error, nothing started");
 	} else {
 		CHECK("C08,C13", g_begin_calls == 1 && g_begin_fp == &g_f[0] && g_end_calls == 1 && g_scan_depth == 0, "every parse pushes exactly one source and pops exactly one, whatever the outcome");
+		CHECK("C06", cfg.line == 1 || g_pi_calls == 0, "line numbering restarts at 1 for every parse (the nested parse does not move it in this unit)");
 		CHECK("C01", g_pi_calls == 1 && g_pi_cfg[0] == &cfg && g_pi_level[0] == 0 && g_pi_force[0] == -1 && g_pi_opt[0] == NULL && g_pi_scan_depth_at_call[0] == 1, "the text is parsed at top level, inside the pushed source");
 		CHECK("C06,C01", rc == (g_pi_ret[0] == 1 ? CFG_PARSE_ERROR : CFG_SUCCESS), "a rejected text gives the parse-error code, an accepted one success");
 		CHECK("C06", cfg.filename != NULL && (hasname ? cfg.filename == name : strcmp(cfg.filename, "FILE") == 0), "a stream without a name is reported as FILE; a given name is kept");
@@ -149,7 +150,7 @@ static void b_call_function(unsigned n)
 		CHECK("C14", g_fn_calls == 1 && g_fn_cfg == &cfg && g_fn_opt == &o && g_fn_argc == (int)n, "the function option's callback is called once with the number of collected arguments");
 		for (unsigned i = 0; i < 3; i++) if (i < n) CHECK("C14", g_fn_argv[i] == texts[i], "the callback receives exactly the decoded arguments, in order");
 		CHECK("C14", rc == g_fn_ret, "the callback's result is the verdict");
-		CHECK("C07", args.nvalues == 0 && args.values == NULL, "the collected arguments are released after the call");
+		CHECK("C07,C14", args.nvalues == 0 && args.values == NULL, "the collected arguments are released after the call (nothing is left over for the next call)");
 	}
 }
 void h_call_function(void)
